@@ -278,6 +278,12 @@ impl RtpsWriterProxy {
             self.set_must_send_acknacks(false);
             self.increment_acknack_count();
 
+            // Fragments of changes that are no longer expected (the writer removed the change and a GAP
+            // or HEARTBEAT moved past it) would otherwise limit the set of requested changes for ever
+            let available_changes_max = self.available_changes_max();
+            self.frag_buffer
+                .retain(|f| f.writer_sn() > available_changes_max);
+
             let info_dst_submessage =
                 InfoDestinationSubmessage::new(self.remote_writer_guid().prefix());
 
